@@ -494,9 +494,11 @@ pub fn generate(property: &str, seed: u64, profile: Profile) -> History {
             g.registered[0] = true;
             g.ops.clear();
             g.ops.push(Op::Register { u });
-            if g.cfg.slots < 3 {
+            // enough slots for two appointments of up to 2 + 3 slots
+            let mut granted = g.cfg.slots.max(1);
+            while granted < 6 {
                 g.ops.push(Op::Register { u });
-                g.ops.push(Op::Register { u });
+                granted += g.cfg.slots.max(1);
             }
             let d = 0u32;
             let len = *g.rng.pick(&[0usize, 0, 2049]);
@@ -508,13 +510,26 @@ pub fn generate(property: &str, seed: u64, profile: Profile) -> History {
                 g.ops.push(Op::Register { u: 1 });
                 g.ops.push(Op::Add { u: 1, d, blob: Blob::Valid { v: 0, len }, tsd: 42, sig: Sig::Good });
             }
-            g.push_mine(vec![TxRef::Dispute(d)]);
+            // sometimes the same user holds a second appointment whose tracker completes in the very same block
+            let twin = g.n_disputes > 1 && g.rng.chance(2, 5);
+            let len2 = *g.rng.pick(&[0usize, 2049, 4097]);
+            if twin {
+                g.used_penalties[1].push((0, len2));
+                g.ops.push(Op::Add { u, d: 1, blob: Blob::Valid { v: 0, len: len2 }, tsd: 42, sig: Sig::Good });
+            }
+            let mut disputes = vec![TxRef::Dispute(d)];
+            let mut penalties = vec![TxRef::Penalty { d, v: 0, len }];
+            if twin {
+                disputes.push(TxRef::Dispute(1));
+                penalties.push(TxRef::Penalty { d: 1, v: 0, len: len2 });
+            }
+            g.push_mine(disputes);
             g.ops.push(Op::Poll);
             let gap = g.rng.below(3);
             for _ in 0..gap {
                 g.push_mine(vec![]);
             }
-            g.push_mine(vec![TxRef::Penalty { d, v: 0, len }]);
+            g.push_mine(penalties);
             g.ops.push(Op::Poll);
             if g.rng.chance(1, 4) {
                 // a shallow reorg above the confirming block on the way
